@@ -93,6 +93,9 @@ def _emit_clauses(kw, cls, ind='    '):
     return '\n'.join(lines) + '\n'
 
 
+_LOOPSPEC = re.compile(r'/\*@LOOPSPEC(?::(.*?))?\*/', re.S)
+
+
 def find_loops(body):
     """indices (position of keyword, position of body '{') of loops in textual order."""
     out = []
@@ -334,13 +337,15 @@ class Unit:
             if spec.get('begin'):
                 body = body[:bpos + 1] + '\n' + spec['begin'] + body[bpos + 1:]
             seg = body[kwpos:bpos]
-            if '/*@LOOPSPEC*/' in seg:
-                body = body[:kwpos] + seg.replace('/*@LOOPSPEC*/', '\n' + txt.rstrip('\n'), 1) + body[bpos:]
+            if '/*@LOOPSPEC' in seg:
+                body = body[:kwpos] + _LOOPSPEC.sub(lambda m: '\n' + txt.rstrip('\n'), seg, count=1) + body[bpos:]
             else:
                 body = body[:bpos].rstrip() + '\n' + txt + '        ' + body[bpos:]
             if spec.get('before'):
                 body = body[:kwpos] + spec['before'] + '\n' + body[kwpos:]
-        body = body.replace('/*@LOOPSPEC*/', '')
+        # loops the overlay says nothing about: a rule-generated loop carries its own minimal clauses (cursor bound, termination), so code
+        # that merely ADDS such an expression still passes the front end; everything else gets nothing
+        body = _LOOPSPEC.sub(lambda m: ('\n' + m.group(1).strip()) if m.group(1) else '', body)
         for sp in splices or []:
             (anchor, ins, where) = sp[:3]
             optional = len(sp) > 3 and sp[3] == 'opt'
